@@ -262,7 +262,21 @@ def shards(tier):
                 big.append({"part": "re", "alpha": "ext", "pattern": pattern, "flags": flags, "n": 3, "first": None})
         for first in range(len(STRINGS_X)):
             big.append({"part": "str", "alpha": "ext", "n": 3, "first": first})
-    return small + big
+    # other forms / provenances of the same vectors (mc/values.np_array, vector_via): NumPy's own StringDType(), a strided
+    # read-only view, the other byte order, the product of a concatenation
+    extra = []
+    for sh in small:
+        if "__env__" in sh:
+            continue
+        if sh["part"] in ("re", "str") and sh.get("alpha") == "base" and (sh["part"] == "str" or sh["flags"] == 0):
+            forms = ["npstring", "viarbind"] if tier == "quick" else ["npstring", "viarbind", "strided", "viaslice"]
+        elif sh["part"] in ("extract", "tostr", "roundtrip", "replace"):
+            forms = ["swapped"] if tier == "quick" else ["swapped", "viarbind", "strided"]
+        else:
+            continue
+        for form in forms:
+            extra.append(dict(sh, __env__={"MC_ARRAY_FORM": form}))
+    return small + extra + big
 
 
 def _vectors(alpha, n, first):
@@ -382,7 +396,8 @@ def stale_dt_vector(unit, toks):
 
 
 def stale_str_vector(toks, attr):
-    src = di.Vector(np.array(["zz"] * (len(toks) + 2), dtype=di.dtypes.string))
+    # (in the string type of the shard's array form: dataiter's own, or NumPy's StringDType() without na_object)
+    src = di.Vector(np.array(["zz"] * (len(toks) + 2), dtype=V.np_array("str", ["zz"]).dtype))
     getattr(src, attr)
     if attr == "re":
         src.re.findall("z")
